@@ -5,6 +5,10 @@ V = os.path.dirname(os.path.dirname(os.path.abspath(__file__)))
 
 CLAIMED = {
     # id: (technique, level text, level note, design ref)
+    "C02": ("who-may-call / who-writes census on the stream-id structures, def-use provenance of registered ids and delivered frames, dominance and cut rules on lookup/orphan/reader, guard-across-await check on pre-lowering coroutine MIR",
+            "Static, schedule-independent: a stream id is freed and leaves the orphanage only in ResponseHandlerMap::lookup (the response path); the id registered for a request is the one StreamIdSet::allocate returned; lookup tests the orphanage before touching handlers and forgets the request->stream mapping on delivery; orphan() is complete; the reader delivers the TaskResponse built from the frame it just read to the handler lookup returned and dies on an unsolicited id; no handler-map guard lives across an await; the orphan notifier is disabled only after the response is Ready. Interleavings as such and the bitmap arithmetic are not decided.",
+            "Trusts rustc MIR and the role-based anchors (three private types of connection.rs); renaming them trips the fail-closed anchor check by design.",
+            "DESIGN.md §3 C02"),
     "C06": ("MIR abstract-state dataflow over the retry decision tables + CFG cut rules on the retry loop",
             "Static, all-paths: the full decision table of every workspace impl RetrySession is extracted from type-checked MIR and every Retry* site is shown to lie where is_idempotent is true or the error class is within the SAFE set; the interpreting loop is shown (reachability after cuts) to re-send only through a Retry* decision. Decides the structural clauses, not end-to-end frame counts.",
             "Trusts rustc MIR construction; SAFE set transcribed from the property text; user-supplied policies out of scope.",
